@@ -359,3 +359,99 @@ Section RowsM.
       unfold refs_of. now rewrite A1.
   Qed.
 End RowsM.
+
+(* ================= any sequence of multi-file appends ================= *)
+Section Seq.
+  Variable row : Type.
+  Variable parse_md : bytes -> option (list path).
+  Variable dec_file : bytes -> list row.
+
+  (* what each step has to satisfy: directories without newline, pairwise distinct new paths, and the
+     summary it writes lists the old references followed by the new files *)
+  Fixpoint steps_ok (steps : list step_in) (refs : list path) : Prop :=
+    match steps with
+    | [] => True
+    | (pt, rgs, md, cmd) :: r =>
+      exists off, find_max_part refs = Some off /\ good_dirs rgs = true /\ NoDup (new_paths off rgs)
+        /\ parse_md (concat md) = Some (refs ++ new_paths off rgs)
+        /\ steps_ok r (refs ++ new_paths off rgs)
+    end.
+
+  Theorem appends_rows_multi steps : forall refs s old_rows,
+    steps_ok steps refs -> refs_of parse_md s = Some refs ->
+    read_dataset (list row) parse_md (rows_decode row dec_file) s = Some old_rows ->
+    exists refs' s', run_appends steps refs s = Some (refs', s')
+      /\ read_dataset (list row) parse_md (rows_decode row dec_file) s'
+         = Some (old_rows ++ concat (map dec_file (all_new_contents steps refs)))
+      /\ refs_of parse_md s' = Some refs'
+      /\ (forall q, In q refs -> FS.lookup q s' = FS.lookup q s).
+  Proof.
+    induction steps as [|[[[pt rgs] md] cmd] r IH]; intros refs s old_rows Hok Hr Hold.
+    - exists refs, s. cbn. rewrite app_nil_r. auto.
+    - cbn [steps_ok] in Hok. destruct Hok as [off [Hoff [Hg [ND [Hp Hrest]]]]].
+      cbn [run_appends all_new_contents]. rewrite Hoff.
+      destruct (append_trace refs pt rgs md cmd) as [tr|] eqn:E.
+      2:{ unfold append_trace in E. rewrite Hoff in E. discriminate. }
+      destruct (append_rows_multi row parse_md dec_file refs pt rgs md cmd tr off s old_rows Hr Hold Hoff E Hg ND Hp) as [R1 R2].
+      destruct (IH _ _ _ Hrest R2 R1) as [refs' [s' [A [B [C D]]]]].
+      exists refs', s'. split; [exact A|]. split; [|split; [exact C|]].
+      + rewrite B. now rewrite map_app, concat_app, app_assoc.
+      + intros q Hq. rewrite D by (apply in_or_app; now left).
+        apply (safe_run_refs_intact refs tr s (append_is_safe refs pt rgs md cmd tr E Hg) q Hq).
+  Qed.
+End Seq.
+
+(* ================= a failure while _common_metadata is written: the new content is already visible ================= *)
+Lemma write_file_only_affects p cs c q : In c (write_file p cs) -> bytes_eqb p q = false -> affects c q = false.
+Proof.
+  unfold write_file. intros [H|H] Hq; [subst c; exact Hq|].
+  apply in_app_or in H. destruct H as [H|[H|[]]].
+  - apply in_map_iff in H. destruct H as [d [Hd _]]. subst c. exact Hq.
+  - subst c. reflexivity.
+Qed.
+
+Section AfterMd.
+  Variable R : Type.
+  Variable parse_md : bytes -> option (list path).
+  Variable decode : bytes -> list (option bytes) -> R.
+
+  Lemma read_dataset_ext s1 s2 : (forall q, q <> cmd_name -> FS.lookup q s1 = FS.lookup q s2) ->
+    (forall b refs, FS.lookup md_name s2 = Some b -> parse_md b = Some refs -> ~ In cmd_name refs) ->
+    read_dataset R parse_md decode s1 = read_dataset R parse_md decode s2.
+  Proof.
+    intros H Hn. unfold read_dataset. rewrite (H md_name) by discriminate.
+    destruct (FS.lookup md_name s2) as [b|] eqn:Eb; [|reflexivity].
+    destruct (parse_md b) as [refs|] eqn:Ep; [|reflexivity]. f_equal. f_equal.
+    apply map_ext_in. intros p Hp. apply H. intros E. subst p. exact (Hn b refs eq_refl Ep Hp).
+  Qed.
+
+  (* the append was interrupted in a call on _common_metadata (after _metadata was written and closed):
+     a fresh open reads exactly what it reads after the complete append *)
+  Theorem crash_in_common_metadata refs partitioned rgs md cmd off tr1 c tr2 s s' :
+    find_max_part refs = Some off -> good_dirs rgs = true ->
+    write_file cmd_name cmd = tr1 ++ c :: tr2 ->
+    let done := concat (map (block_calls partitioned) (new_files off rgs)) ++ write_file md_name md in
+    crash_at (done ++ tr1) c s s' ->
+    parse_md (concat md) = Some (refs ++ new_paths off rgs) ->
+    read_dataset R parse_md decode s'
+    = read_dataset R parse_md decode (run_trace (done ++ write_file cmd_name cmd) s).
+  Proof.
+    intros Hoff Hg E done P Hp.
+    assert (Hc : forall x, In x (write_file cmd_name cmd) -> forall q, q <> cmd_name -> affects x q = false).
+    { intros x Hx q Hq. apply (write_file_only_affects cmd_name cmd x q Hx). apply bytes_eqb_false. congruence. }
+    assert (F1 : forall q, q <> cmd_name -> FS.lookup q s' = FS.lookup q (run_trace done s)).
+    { intros q Hq. unfold crash_at in P. rewrite run_app in P.
+      rewrite (partial_frame c q _ _ P) by (apply Hc; [rewrite E; apply in_or_app; right; now left | exact Hq]).
+      apply run_frame. intros x Hx. apply Hc; [rewrite E; apply in_or_app; now left | exact Hq]. }
+    assert (F2 : forall q, q <> cmd_name -> FS.lookup q (run_trace (done ++ write_file cmd_name cmd) s) = FS.lookup q (run_trace done s)).
+    { intros q Hq. rewrite run_app. apply run_frame. intros x Hx. now apply Hc. }
+    apply read_dataset_ext.
+    - intros q Hq. now rewrite F1, F2.
+    - intros b rf Hb Hpb. rewrite F2 in Hb by discriminate. unfold done in Hb. rewrite run_app in Hb.
+      destruct (run_write_file md_name md (run_trace (concat (map (block_calls partitioned) (new_files off rgs))) s)) as [M1 _].
+      rewrite M1 in Hb. inversion Hb; subst b. rewrite Hp in Hpb. inversion Hpb; subst rf.
+      intros Hin. apply in_app_or in Hin. destruct Hin as [Hin|Hin].
+      + now destruct (summary_not_ref refs off Hoff) as [_ N2].
+      + destruct (new_paths_fresh refs off rgs Hoff Hg _ Hin) as [_ [_ N]]. now apply N.
+  Qed.
+End AfterMd.
